@@ -13,5 +13,6 @@ Lemma tie_node_serve : Skel_gen.node_serve = Teardown.node_serve_skel. Proof. re
 Lemma tie_node_stop : Skel_gen.node_stop = Teardown.node_stop_skel. Proof. reflexivity. Qed.
 Lemma tie_node_done : Skel_gen.node_done = Teardown.node_done_skel. Proof. reflexivity. Qed.
 Lemma tie_handle_msg : Skel_gen.handle_msg = Teardown.handle_msg_skel. Proof. reflexivity. Qed.
+Lemma tie_handle_msg_locked : Skel_gen.handle_msg_locked = Teardown.handle_msg_locked_skel. Proof. reflexivity. Qed.
 Lemma tie_iface_stop : Skel_gen.iface_stop = Teardown.iface_stop_skel. Proof. reflexivity. Qed.
 Lemma tie_remove_session : Skel_gen.remove_session = Teardown.remove_session_skel. Proof. reflexivity. Qed.
